@@ -154,7 +154,9 @@ class Engine(EngineBase):
         opts = {
             "strategy": strategy, "doc_sync": ds,
             "recursive": rng.random() < 0.5,
-            "exclude": rng.choice([None, None, r".*\.log", r"f1", r"sub", r"f", r"log", r"1", r"g", r"x\.lo$"]),
+            "exclude": rng.choice([None, None, None, r".*\.log", r"f1", r"sub", r"f", r"log", r"1", r"g", r"x\.lo$",
+                                   # patterns that also match signac's own files (state point, document)
+                                   r".*\.json", r"signac", r".*"]),
             "selection": None, "selection_kind": rng.choice(["job", "id"]),
             "check_schema": rng.random() < 0.3,
             "deep": rng.random() < 0.35,
